@@ -126,6 +126,11 @@ func runListenSeq(cfgs []int, buf int, cs []liveChunk) (res [][]liveMsg, panicke
 }
 
 func listenOnce(drv *testdrv.Driver, in drivers.In, out drivers.Out, cfg, buf int, cs []liveChunk) (msgs []liveMsg) {
+	return listenOnceUnit(drv, in, out, cfg, buf, cs, time.Millisecond)
+}
+
+// listenOnceUnit: the chunk deltas count in `unit` (the test driver's clock is virtual: drv.Sleep adds to it)
+func listenOnceUnit(drv *testdrv.Driver, in drivers.In, out drivers.Out, cfg, buf int, cs []liveChunk, unit time.Duration) (msgs []liveMsg) {
 	var opts []midi.Option
 	if cfg&1 != 0 {
 		opts = append(opts, midi.UseSysEx())
@@ -150,7 +155,7 @@ func listenOnce(drv *testdrv.Driver, in drivers.In, out drivers.Out, cfg, buf in
 		panic("Send: " + e.Error())
 	}
 	for _, c := range cs {
-		drv.Sleep(time.Duration(c.delta) * time.Millisecond)
+		drv.Sleep(time.Duration(c.delta) * unit)
 		if e := out.Send(c.bytes); e != nil {
 			panic("Send: " + e.Error())
 		}
